@@ -4,7 +4,8 @@
    Contract: Spec/Walk.v. *)
 From Coq Require Import ZArith NArith List Bool.
 From PydoctorVerif Require Import Base.Sexp Model.Visitor Model.BuilderStack Spec.Walk Proofs.VisitorProofs Gen.SkipSites
-  Model.VisitorIR Gen.VisitorCode Proofs.VisitorIRProofs.
+  Model.VisitorIR Gen.VisitorCode Proofs.VisitorIRProofs
+  Model.StackIR Gen.StackCode Proofs.StackIRProofs.
 Import ListNotations.
 
 (* What each participant (main visitor = 0, or any extension) sees of walkabout() is exactly a
@@ -97,6 +98,29 @@ Theorem C19_code_walkabout_projection :
     filter (who_is p) (fst (walkabout_ir visitor_code exts prune t)) = dfs p (leaves_of prune p) (traversed prune t)
     /\ (snd (walkabout_ir visitor_code exts prune t) <> None <-> skips_siblings prune (root t) = true).
 Proof. exact code_walkabout_projection. Qed.
+
+(* ... and the scope stack itself: the bodies of astbuilder.ASTBuilder.push / pop translated from the CURRENT source
+   (harness/gen/gen_c19_stack.py -> Gen/StackCode.v, language and interpreter in Model/StackIR.v).  Interpreting them is the
+   hand model push_m / pop_m, for every state, object and Module-ness; and the hand model moves the list of entered scopes exactly
+   as Model.BuilderStack.stack_run assumes: push conses the object, pop demands it on top (the `assert self.current is obj`)
+   and removes it. *)
+Theorem C19_code_push_is_model :
+  forall is_module obj lineno s,
+    sexec is_module obj lineno (sc_push builder_stack_code) s = push_m is_module obj s.
+Proof. exact push_ir_eq. Qed.
+
+Theorem C19_code_pop_is_model :
+  forall is_module obj lineno s,
+    sexec is_module obj lineno (sc_pop builder_stack_code) s = pop_m is_module obj s.
+Proof. exact pop_ir_eq. Qed.
+
+Theorem C19_code_stack_discipline :
+  forall is_module obj lineno s s',
+    (sexec is_module obj lineno (sc_push builder_stack_code) s = Some s' -> scopes s' = obj :: scopes s) /\
+    (sexec is_module obj lineno (sc_pop builder_stack_code) s = Some s' -> scopes s = obj :: scopes s').
+Proof.
+  intros im obj ln s s'. rewrite push_ir_eq, pop_ir_eq. split; [apply push_m_scopes|apply pop_m_scopes].
+Qed.
 
 (* The walkabout() of the pinned commit (before the fix: commit) violated the projection property:
    a BEFORE extension enters node 2 and never leaves it when main raises SkipSiblings there. *)
